@@ -1,4 +1,4 @@
-CONSTANTS Kinds = {"M","CM","CO","CR"} MaxLog = 3 MaxPush = 2 SliceLim = 0 ChanLim = 1 UseSeq = FALSE Tracked0 = TRUE MaxCrash = 1 Fixed = TRUE TooLongAt = 0 ChanTooLongAt = 0 DiffLimit = 0 ChanTLPush = FALSE SimDepth = 99
+CONSTANTS Kinds = {"M","CM","CO","CR"} MaxLog = 3 MaxPush = 2 SliceLim = 0 ChanLim = 0 UseSeq = FALSE Tracked0 = TRUE MaxCrash = 1 Fixed = TRUE TooLongAt = 0 ChanTooLongAt = 0 DiffLimit = 0 ChanTLPush = FALSE SimDepth = 99
 INIT Init
 NEXT Next
 VIEW View
